@@ -102,6 +102,8 @@ fn observed(r: &Result<Request, Status>) -> Expect {
 
 pub const ENC_NAMES: [&str; 4] = ["short", "short+Le", "extended", "extended+Le"];
 pub const LENGTHS: [usize; 16] = [0, 1, 32, 63, 64, 65, 66, 67, 96, 255, 256, 318, 319, 320, 321, 400];
+/// payloads at and around the largest message a transport can carry, and the APDU maximum
+pub const LONG_LENGTHS: [usize; 7] = [7000, 7599, 7600, 7601, 7609, 7610, 65535];
 
 const LE_VALUES: [u16; 8] = [0, 1, 5, 6, 7, 255, 256, 0xFFFF];
 
@@ -143,12 +145,31 @@ fn check_apdu(cla: u8, ins: u8, p1: u8, p2: u8, data: &[u8], enc: usize, obs: &m
     if got1 != want {
         return Err(fail("view", format!("CommandView -> {:?}, expected {:?}", short(&got1), short(&want))));
     }
-    let cmd = iso7816::Command::<7609>::try_from(&apdu[..]).map_err(|e| fail("harness:owned-rejected", format!("{:?}", e)))?;
-    let r2 = Request::try_from(&cmd);
-    let got2 = observed(&r2);
-    if got2 != want {
-        return Err(fail("owned", format!("&Command -> {:?}, expected {:?}", short(&got2), short(&want))));
+    if data.len() <= 7609 {
+        let cmd = iso7816::Command::<7609>::try_from(&apdu[..]).map_err(|e| fail("harness:owned-rejected", format!("{:?}", e)))?;
+        let r2 = Request::try_from(&cmd);
+        let got2 = observed(&r2);
+        if got2 != want {
+            return Err(fail("owned", format!("&Command -> {:?}, expected {:?}", short(&got2), short(&want))));
+        }
     }
+    // the owned entry point with a buffer that the payload fills exactly (and one with a byte to spare)
+    macro_rules! owned_exact {
+        ($($s:literal),*) => {
+            match data.len() {
+                $( $s => {
+                    let c = iso7816::Command::<$s>::try_from(&apdu[..]).map_err(|e| fail("harness:owned-exact-rejected", format!("{:?}", e)))?;
+                    let g = observed(&Request::try_from(&c));
+                    if g != want {
+                        return Err(fail("owned-exactly-full", format!("&Command<{}> holding exactly {} bytes -> {:?}, expected {:?}", $s, $s, short(&g), short(&want))));
+                    }
+                    obs.label("owned:exactly-full");
+                } )*
+                _ => {}
+            }
+        };
+    }
+    owned_exact!(0, 1, 32, 63, 64, 65, 66, 67, 96, 255, 256, 318, 319, 320, 321, 400);
     let class = match &want {
         Expect::Err(s) => format!("expect:{:?}", s),
         Expect::Version => "expect:Version".into(),
@@ -217,16 +238,20 @@ fn g_random(src: &mut Src, obs: &mut Obs) -> CaseResult {
         _ => src.byte(),
     };
     let p2 = src.byte();
-    let len = match src.below(4) {
-        0 => *src.pick(&LENGTHS),
-        1 => 65 + src.below(256),
+    let len = match src.below(9) {
+        0 | 1 => *src.pick(&LENGTHS),
+        2 | 3 => 65 + src.below(256),
+        4 => {
+            obs.label("long-payload");
+            *src.pick(&LONG_LENGTHS)
+        }
         _ => src.range(0, 400),
     };
     let mut data = src.bytes(len);
     if len > 64 && src.chance(2, 3) {
         data[64] = (len - 65) as u8;
     }
-    let enc = src.below(4);
+    let enc = if len > 255 { 2 + src.below(2) } else { src.below(4) };
     obs.label("random");
     check_apdu(cla, ins, p1, p2, &data, enc, obs)
 }
@@ -289,7 +314,7 @@ pub fn gens() -> Vec<Gen> {
     vec![G_HEADER, G_RANDOM, G_RAW, G_CONCRETE, Gen { name: "c08_raw_concrete", f: g_concrete }]
 }
 
-pub const RULE: &str = "APDUs are constructed by an independent ISO 7816-4 framer from (cla, ins, p1, p2, data, encoding in {short, short+Le, extended, extended+Le}, announced Le rotating over {max,1,5,6,7,255,256,65535}) and handed to iso7816's CommandView / Command<7609> parsers and then to both ctap1::Request conversions. Thorough: the complete header space (256 classes x 256 instructions x 256 P1), each header with one (length, encoding, key-handle-length-byte consistency) variant chosen by rotation, and for instructions 1, 2, 3 with ALL 256 variants (16 data lengths on the decision boundaries 0,1,32,63..67,96,255,256,318..321,400 x 4 encodings x 4 consistency modes); quick: every (cla, ins) with P1 in {0,3,7,8,0xFF, rotating} and all variants for cla 0 / ins 1,2,3. Plus proptest APDUs with random data and raw byte strings. Oracle: the statement transcribed (class check first; ins 3 -> Version; ins 1 -> Register iff 64 bytes; ins 2 -> Authenticate iff P1 in {3,7,8} and len == 65 + data[64]; otherwise the named status), both entry points agree, no panic. Class 0xFF is rejected by the APDU parser itself and nothing further is asserted for it. Non-trivial: cla == 0 and ins in {1,2}; distinct by APDU bytes.";
+pub const RULE: &str = "APDUs are constructed by an independent ISO 7816-4 framer from (cla, ins, p1, p2, data, encoding in {short, short+Le, extended, extended+Le}, announced Le rotating over {max,1,5,6,7,255,256,65535}) and handed to iso7816's CommandView / Command<7609> parsers and then to both ctap1::Request conversions. Thorough: the complete header space (256 classes x 256 instructions x 256 P1), each header with one (length, encoding, key-handle-length-byte consistency) variant chosen by rotation, and for instructions 1, 2, 3 with ALL 256 variants (16 data lengths on the decision boundaries 0,1,32,63..67,96,255,256,318..321,400 x 4 encodings x 4 consistency modes); quick: every (cla, ins) with P1 in {0,3,7,8,0xFF, rotating} and all variants for cla 0 / ins 1,2,3. Plus proptest APDUs with random data (incl. payloads of 7000..7610 and 65535 bytes) and raw byte strings; the owned entry point is additionally exercised with Command<S> buffers that the payload fills exactly. Oracle: the statement transcribed (class check first; ins 3 -> Version; ins 1 -> Register iff 64 bytes; ins 2 -> Authenticate iff P1 in {3,7,8} and len == 65 + data[64]; otherwise the named status), both entry points agree, no panic. Class 0xFF is rejected by the APDU parser itself and nothing further is asserted for it. Non-trivial: cla == 0 and ins in {1,2}; distinct by APDU bytes.";
 pub const ASSUMPTIONS: &[&str] = &["the harness framer follows ISO 7816-4 cases 1, 2S/2E, 3S/3E, 4S/4E", "iso7816's parser is part of the system under test (its data slice is compared with the framed data)"];
 
 pub fn run(ctx: &mut Ctx) {
@@ -331,6 +356,6 @@ pub fn run(ctx: &mut Ctx) {
     ctx.require(&[
         "expect:Version", "expect:Register", "expect:Authenticate", "expect:ClassNotSupported", "expect:IncorrectDataParameter",
         "expect:InstructionNotSupportedOrInvalid", "encoding:short", "encoding:short+Le", "encoding:extended", "encoding:extended+Le",
-        "ins1:len64", "ins1:len63", "ins1:len65", "ins2:len65", "ins2:len64", "ins2:len66", "ins2:len320", "ins2:len321", "ins2:len319", "raw:parsed",
+        "ins1:len64", "ins1:len63", "ins1:len65", "ins2:len65", "ins2:len64", "ins2:len66", "ins2:len320", "ins2:len321", "ins2:len319", "raw:parsed", "long-payload", "owned:exactly-full",
     ]);
 }
